@@ -366,3 +366,43 @@ pub fn tx2_ops(m: &Model, ends: &[TxEnd]) -> Vec<Op> {
     }
     out
 }
+
+/// Transactions of exactly `len` ops drawn from a tiny op set, in range when applied in sequence.
+pub fn txn_ops(m: &Model, len: usize, ends: &[TxEnd]) -> Vec<Op> {
+    fn tiny(n: usize) -> Vec<Op> {
+        let mut v = vec![Op::PushBack, Op::PushFront, Op::PopFront, Op::Clear, Op::Append(2)];
+        if n > 0 {
+            v.push(Op::Set(0));
+            v.push(Op::Remove(n - 1));
+        }
+        if n > 1 {
+            v.push(Op::Insert(1));
+            v.push(Op::Truncate(1));
+        }
+        v
+    }
+    fn rec(m: &Model, len: usize, cur: &mut Vec<Op>, out: &mut Vec<Vec<Op>>) {
+        if len == 0 {
+            out.push(cur.clone());
+            return;
+        }
+        for o in tiny(m.v.len()) {
+            let mut m2 = m.clone();
+            if !m2.apply(&o) {
+                continue;
+            }
+            cur.push(o);
+            rec(&m2, len - 1, cur, out);
+            cur.pop();
+        }
+    }
+    let mut seqs = Vec::new();
+    rec(m, len, &mut Vec::new(), &mut seqs);
+    let mut out = Vec::new();
+    for s in seqs {
+        for e in ends {
+            out.push(Op::Tx(s.clone(), e.clone()));
+        }
+    }
+    out
+}
